@@ -48,6 +48,17 @@ class Awaitable:
         return iter(())
 
 
+def dec(x):
+    """JSON -> argument values: {"__tuple__": [..]} stands for a tuple (JSON has none)"""
+    if isinstance(x, dict) and set(x) == {"__tuple__"}:
+        return tuple(dec(v) for v in x["__tuple__"])
+    if isinstance(x, dict):
+        return {k: dec(v) for k, v in x.items()}
+    if isinstance(x, list):
+        return [dec(v) for v in x]
+    return x
+
+
 def make_outcome(how):
     """-> ("return", value) or ("raise", exception instance)"""
     kind, _, what = how.partition(":")
@@ -109,8 +120,8 @@ class Harness:
         flavour = spec["flavour"]
         h = self
         g = self.gate(pid)
-        exp_args = tuple(spec.get("args", ()))
-        exp_kwargs = dict(spec.get("kwargs", {}))
+        exp_args = tuple(dec(a) for a in spec.get("args", ()))
+        exp_kwargs = {k: dec(v) for k, v in spec.get("kwargs", {}).items()}
 
         def started(args, kwargs):
             info = h.ctx_info(flavour)
@@ -284,8 +295,8 @@ class Harness:
         flavour = spec["flavour"]
         self.exec_seq += 1
         call = self.exec_seq
-        exp_args = tuple(spec.get("args", ()))
-        exp_kwargs = dict(spec.get("kwargs", {}))
+        exp_args = tuple(dec(a) for a in spec.get("args", ()))
+        exp_kwargs = {k: dec(v) for k, v in spec.get("kwargs", {}).items()}
         kind, val = make_outcome(how)
         h = self
 
@@ -303,6 +314,19 @@ class Harness:
                 begin(args, kwargs)
                 time.sleep(slow)
                 return body(args, kwargs)
+        elif spec.get("plaincall"):
+            # a plain callable: a failure happens in the CALL, before any coroutine exists
+            def payload(*args, **kwargs):
+                if kind == "raise":
+                    # (where the bare call runs is nobody's promise: there is no coroutine yet)
+                    hooks.emit("x.start", p=pid, call=call, flavour=flavour, callonly=True, argsok=(tuple(args) == exp_args and dict(kwargs) == exp_kwargs), **h.ctx_info(flavour))
+                    return body(args, kwargs)
+
+                async def rest():
+                    begin(args, kwargs)
+                    await (asyncio.sleep(slow) if flavour == "asyncio" else trio.sleep(slow))
+                    return body(args, kwargs)
+                return rest()
         elif flavour == "asyncio":
             async def payload(*args, **kwargs):
                 begin(args, kwargs)
